@@ -59,7 +59,8 @@ def b2s (b : Bool) : String := if b then "1" else "0"
 /-- observations of one code point: (toString bytes, fromString, isValid, length of first byte) -/
 def cpObs (cp : Nat) : Res (List Nat × Nat × Bool × Nat) :=
   let s := toString cp
-  (fromString s s.length).bind fun v => (isValid s s.length).bind fun ok =>
+  -- the String overloads (C-string view), as called by a user; `dec` lines go through the pointer forms
+  (fromStringS s).bind fun v => (isValidS s).bind fun ok =>
     .ok (s, v, ok, match s with | b :: _ => utf8Length b | [] => 255)
 
 def cpBatch (start count : Nat) : String := Id.run do
